@@ -10,6 +10,8 @@
      {"ev":"conn","s":server|"none"}        hook sw.setConnected (player lock held)
      {"ev":"ret","t":thread,"status":"success"|"already"|"inprogress"|"fail","beh":..}  harness, after the call
      {"ev":"kick"}                          harness: the current backend sends a play disconnect
+     {"ev":"quit"}                          harness: the client closes its connection
+     {"ev":"dial","who":..,"s":..,"phase":"held"|"released"}   harness: the attempt's TCP dial (no meaning for the spec)
      {"ev":"obs","current":..,"alive":bool,"open":[servers],"openids":[ids],"lists":[servers]}
                                             harness at quiescence: Player.CurrentServer(), client connection,
                                             fake backends' still-open connections of this player,
@@ -34,9 +36,11 @@ TEnd == IsEv("end") /\ End(Rec.who, Rec.s)
 TConn == IsEv("conn") /\ Connected(Rec.s)
 TRet == IsEv("ret") /\ Ret(Rec.t, Rec.status, Rec.beh)
 TKick == IsEv("kick") /\ Kick
+TQuit == IsEv("quit") /\ Quit
+TDial == IsEv("dial") /\ UNCHANGED svars      \* harness: an attempt's TCP dial is held / released
 TObs == IsEv("obs") /\ Observe([current |-> Rec.current, alive |-> Rec.alive, open |-> Rec.open,
                                  openids |-> Rec.openids, lists |-> AsSet(Rec.lists)])
 
-TNext == TReset \/ TCall \/ TChk \/ TStart \/ TClear \/ TEnd \/ TConn \/ TRet \/ TKick \/ TObs
+TNext == TReset \/ TCall \/ TChk \/ TStart \/ TClear \/ TEnd \/ TConn \/ TRet \/ TKick \/ TQuit \/ TDial \/ TObs
 TSpec == TInit /\ [][TNext]_tv
 =============================================================================
